@@ -224,6 +224,74 @@ theorem late_completion_no_tally (ops1 ops2 : List Op) (h : okHist good init (op
   rw [hs']
   cases hst : x.state <;> simp_all [JState.terminal, JState.active]
 
+/-! ## the tallies are exact -/
+
+/-- the jobs in group `g` or in a group below it (`g.id` is among the ancestors-or-self of the job's group) -/
+def jobsUnder (s : State) (g : Group) : List Job := s.jobs.filter (fun x => under s g.batch g.id x)
+
+/-- the full statement, for histories satisfying `P`: every group row's four tallies are the numbers of jobs in the group
+or below it that are terminal / succeeded / failed or errored / cancelled -/
+def TalliesExact (P : State → Op → Bool) : Prop :=
+  ∀ (ops : List Op), okHist P init ops = true → ∀ g ∈ (after init ops).groups,
+    g.nCompleted = (((jobsUnder (after init ops) g).filter fun x => x.state.terminal).length : Int) ∧
+    g.nSucceeded = (((jobsUnder (after init ops) g).filter fun x => decide (x.state = .Success)).length : Int) ∧
+    g.nFailed = (((jobsUnder (after init ops) g).filter fun x => decide (x.state = .Failed ∨ x.state = .Error)).length : Int) ∧
+    g.nCancelled = (((jobsUnder (after init ops) g).filter fun x => decide (x.state = .Cancelled)).length : Int)
+
+theorem tinv_of_good (ops : List Op) : ∀ s, LInv (· ≤ ·) s → TInv s → okHist good s ops = true → TInv (after s ops) := by
+  induction ops with
+  | nil => intro s _ ht _; exact ht
+  | cons op rest ih =>
+    intro s hi ht h
+    simp only [okHist, good, Bool.and_eq_true] at h
+    have hwf := wf_of_wfB h.1.1.1
+    exact ih _ (linv_step s hi op hwf h.1.1.2 h.1.2) (tinv_step s hi ht op hwf) (by simpa [good] using h.2)
+
+theorem sumBy_indicator {α : Type} (p : α → Bool) (l : List α) :
+    sumBy (fun x => if p x then (1 : Int) else 0) l = ((l.filter p).length : Int) := by
+  induction l with
+  | nil => rfl
+  | cons x l ih =>
+    rw [sumBy_cons, ih]
+    by_cases h : p x = true
+    · simp [h]; omega
+    · simp [h]
+
+theorem recount_eq_count (i : Fin 4) (q : JState → Bool) (hq : ∀ st, comp i (contrib st) = if q st then 1 else 0)
+    (s : State) (g : Group) :
+    recount i s g.batch g.id = (((jobsUnder s g).filter fun x => q x.state).length : Int) := by
+  unfold recount jobsUnder
+  rw [List.filter_filter, ← sumBy_indicator]
+  apply sumBy_congr
+  intro x _
+  rw [hq]
+  cases under s g.batch g.id x <;> cases q x.state <;> rfl
+
+/-- **tallies_exact (partial).**  After every good history, every group row counts each job in it or below it exactly once
+in `n_completed` and in exactly one of `n_succeeded` / `n_failed` / `n_cancelled`, according to its terminal state. -/
+theorem tallies_exact_partial : TalliesExact good := by
+  intro ops h g hg
+  have hi := linv_of_good ops init linv_init h
+  have ht := tinv_of_good ops init linv_init tinv_init h
+  refine ⟨?_, ?_, ?_, ?_⟩
+  · rw [← recount_eq_count 0 (fun st => st.terminal) (by intro st; cases st <;> rfl)]
+    exact ht.exact g hg 0
+  · rw [← recount_eq_count 1 (fun st => decide (st = .Success)) (by intro st; cases st <;> rfl)]
+    exact ht.exact g hg 1
+  · rw [← recount_eq_count 2 (fun st => decide (st = .Failed ∨ st = .Error)) (by intro st; cases st <;> rfl)]
+    exact ht.exact g hg 2
+  · rw [← recount_eq_count 3 (fun st => decide (st = .Cancelled)) (by intro st; cases st <;> rfl)]
+    exact ht.exact g hg 3
+
+set_option maxRecDepth 8192 in
+/-- on the defect's witness the tallies are NOT exact: after the late commit job 2 is Ready again but is still counted as
+completed and succeeded in the root group (2 completed, 1 terminal job) -/
+theorem tallies_exact_fails : ¬ TalliesExact wellFormed := by
+  intro h
+  have := h (witness ++ [lateCommit]) witness_wellFormed ⟨1, 0, [0], none, .running, 2, 2, 2, 0, 0⟩ (by decide)
+  revert this
+  decide
+
 /-! ## non-vacuity of the hypotheses -/
 
 /-- a two-update DAG run to completion in the intended order (commit before the parents finish) is a good history -/
